@@ -7,6 +7,7 @@ import gen as G
 
 class C12(Prop):
     pid = "C12"
+    fields = dict(Prop.fields, snappath="*")
     rule = ("sequences of the five Match* entry points issued through 1-3 shared Config handles (and the package "
             "defaults) with random option sets (Dir, Filename, Ext, Update), all creating; the oracle recomputes every "
             "call's location from the Config's options alone (independent reading of the naming rule) and compares it with "
@@ -65,12 +66,21 @@ class C12(Prop):
                         calls.append(G.op_match_doc(api, h, t, r.choice(G.JSON_DOCS), r.choice(["string", "bytes"])))
                 seqs.append(calls + [G.op_end(t)])
             ops += G.interleave(r, seqs) + [{"op": "dumpfs"}]
+            if r.chance(1, 3):
+                # locations resolved (not written) for Configs with RELATIVE directories: resolving must not write anything back
+                for _ in range(r.range(1, 3)):
+                    so = {"op": "snappath", "api": r.choice(["snap", "stand", "standjson"]), "test": hx(r.choice(G.TEST_NAMES)), "form": r.choice(["test", "utiltest"]),
+                          "values": [], "count": 1, "sort": False}
+                    d_ = r.choice([None, b"rel/dir", b"../shared", b"__snapshots__"])
+                    if d_ is not None:
+                        so["dir"] = hx(d_)
+                    ops.append(so)
             cases.append({"ci": False, "updvar": "unset", "colour": False, "ops": ops, "meta": {}})
         return cases
 
     def oracle(self, case, ops, results):
         obs = [r for r in results if r[0] == "obs"]
-        op_with_obs = [o for o in ops if o[0] not in ("init", "dumpfs", "counters")]
+        op_with_obs = [o for o in ops if o[0] not in ("init", "dumpfs", "counters", "snappath")]
         if len(op_with_obs) != len(obs):
             return self.skip("guard")
         cfgs = []
@@ -80,6 +90,9 @@ class C12(Prop):
         final = fss[-1][2] if fss and not any(n == "newprocess" for n, _ in ops) else None
         # files some call UPDATED (shared Filename + Update(true)) no longer hold what earlier calls stored
         rewritten = set(x.split(":", 1)[1] for r_ in obs if r_[2].get("outcome") == "updated" for x in r_[2]["writes"].split(",") if x != "-")
+        for r_ in results:
+            if r_[0] == "snappath" and r_[2].get("cfgsame") == "0":
+                fails.append({"msg": "snappath %s: resolving a location changed the Config it was resolved for (or the package defaults)" % r_[1]})
         for (name, kv), (_, idx, o) in zip(op_with_obs, obs):
             if name == "newconfig":
                 cfgs.append(kv)
@@ -89,6 +102,8 @@ class C12(Prop):
                 for key in [x for x in k_of if x[1] == kv["test"]]:
                     k_of.pop(key)
             elif name == "match" and kv.get("pre") != "novalues":
+                if o.get("cfgsame") == "0":
+                    fails.append({"msg": "obs %d (%s via handle %s): the call changed the Config it went through (some field, or something a field points to, differs after the call)" % (idx, kv["api"], kv["h"])})
                 h = int(kv["h"])
                 if h > len(cfgs):
                     continue
